@@ -38,7 +38,7 @@ DOCUMENTED = ['application/json', 'application/json-rpc', 'application/jsonreque
 FLOORS = {'*': {**{f'{i}:{t}': 10 for i in INTEGRATIONS for t in DOCUMENTED},
                 **{f'{i}:{t}+params': 10 for i in INTEGRATIONS for t in DOCUMENTED},
                 **{f'{i}:refused-type': 30 for i in INTEGRATIONS}, **{f'{i}:empty-reply': 5 for i in INTEGRATIONS},
-                'status:non-200': 50, 'endpoint:added': 50, 'endpoint:added-sub': 50, 'charset:non-utf8-declared': 30, 'cross-integration-comparisons': 200, 'non-utf8-bodies': 10}}
+                'status:non-200': 50, 'endpoint:added': 50, 'endpoint:added-sub': 50, 'endpoint:added-bp': 50, 'charset:non-utf8-declared': 30, 'cross-integration-comparisons': 200, 'non-utf8-bodies': 10}}
 
 STATUS_TABLE = {-32700: 400, -32600: 400, -32601: 404, -32602: 422, -32000: 500, -32603: 500}
 
@@ -82,7 +82,7 @@ class App:
         self.log = world.Log()
         is_async = integration == 'aiohttp'
         self.twins = {}
-        for name in ('root', 'added', 'added-sub'):
+        for name in ('root', 'added', 'added-sub', 'added-bp'):
             t = world.World(is_async, 3)
             t.dispatcher.add(self._which(name, is_async), 'which')
             self.twins[name] = t
@@ -100,6 +100,10 @@ class App:
             d4.add_methods(world.build_registry(self.log, True))
             d4.add(self._which('added-sub', True), 'which')
             self.paths['added-sub'] = (root.rstrip('/') + '/viasub')
+            d5 = self.app.add_endpoint('/viabp', subapp=_web.Application(), max_batch_size=3)
+            d5.add_methods(world.build_registry(self.log, True))
+            d5.add(self._which('added-bp', True), 'which')
+            self.paths['added-bp'] = (root.rstrip('/') + '/viabp')
             d3 = self.app.add_endpoint('/last', max_batch_size=3)
             d3.add(self._which('last', True), 'which')
             self.paths['added'] = (root.rstrip('/') + '/sub')
@@ -117,6 +121,11 @@ class App:
             d4.add_methods(world.build_registry(self.log, False))
             d4.add(self._which('added-sub', False), 'which')
             self.paths['added-sub'] = (root.rstrip('/') + '/viasub')
+            # an endpoint served through a blueprint that is mounted under its own url_prefix
+            d5 = self.rpc.add_endpoint('/viabp', blueprint=flask.Blueprint('viabp', 'vmon_c18', url_prefix='/bp'), max_batch_size=3)
+            d5.add_methods(world.build_registry(self.log, False))
+            d5.add(self._which('added-bp', False), 'which')
+            self.paths['added-bp'] = '/bp' + (root.rstrip('/') + '/viabp')
             d3 = self.rpc.add_endpoint('/last', max_batch_size=3)
             d3.add(self._which('last', False), 'which')
             self.paths['added'] = (root.rstrip('/') + '/sub')
@@ -399,7 +408,7 @@ def gen(ctx):
         k += 1
         if full or k % 3 == 0:
             yield 'post', dict(root=('/rpc', '/api')[k % 2], status_kind=('default', 'table')[k % 2],
-                               path_key=('root', 'added', 'added-sub')[k % 3], media_type=mt, body_hex=b.hex(), family='declared-charset')
+                               path_key=('root', 'added', 'added-sub', 'added-bp')[k % 4], media_type=mt, body_hex=b.hex(), family='declared-charset')
     for root in ('/rpc', '/api', '/api/v1/'):
         for status_kind in ('default', 'any-error-400', 'table', 'all-errors-400'):
             for fam, b in bs:
@@ -411,7 +420,7 @@ def gen(ctx):
                         pick = k % 2 == 0 or cls_.startswith('documented') or fam == 'non-utf8'
                         if not pick:
                             continue
-                    yield 'post', dict(root=root, status_kind=status_kind, path_key=('added', 'root', 'added-sub', 'root', 'root')[k % 5],
+                    yield 'post', dict(root=root, status_kind=status_kind, path_key=('added', 'root', 'added-sub', 'root', 'added-bp', 'root')[k % 6],
                                        media_type=mt, body_hex=b.hex(), family=fam)
 
 
